@@ -143,12 +143,16 @@ def run(chk: Check):
                 j = rng.randrange(n - 1)
                 y[j], y[j + 1] = rng.choice([(1e-200, 1e200), (1e250, 1e-100), (5e-324, 1e300), (1e308, 1e-308)])
         y = np.clip(y, 5e-324, 1.7e308)
+        if rng.random() < 0.2:
+            # head counts: a positive series held in an integer (or float32) array
+            y = (np.round(np.clip(y, 1.0, 1e6) * rng.choice([1, 7, 100])) + 1).astype(rng.choice([np.int64, np.int32, np.float32]))
+            chk.count("filters:dtype:" + str(y.dtype))
         with warnings.catch_warnings():
             warnings.simplefilter("ignore")
             a = hp_cycle_lamb1600_filter(y.copy()); a_ref = hp_filter(y.copy(), 1600)[0]
             b = log_and_hp_filter(y.copy()); b_ref = np.log(y) - hp_filter(np.log(y), 1600)[1]
             c = diff_log_demean_filter(y.copy())
-        lg = np.log(y)
+        lg = np.log(y.astype(np.float64))
         if not (np.all(np.isfinite(y)) and np.all(y > 0)):
             continue      # outside the quantifier (finite positive series); the generator clips, this is a guard
         with np.errstate(all="ignore"):
@@ -160,9 +164,10 @@ def run(chk: Check):
             chk.fail("hp_cycle_lamb1600_filter is not the cycle of hp_filter at lambda 1600", case)
         if b.tobytes() != b_ref.tobytes():
             chk.fail("log_and_hp_filter is not log(x) minus the HP trend of log(x) at lambda 1600", case)
-        if len(c) != n or not np.all(np.isfinite(c)) or not (np.max(np.abs(c - c_ref)) <= 1e-12 * max(1.0, float(np.max(np.abs(lg))))):
+        ctol = 1e-12 if y.dtype != np.float32 else 1e-5          # a float32 input is legitimately processed in single precision
+        if len(c) != n or not np.all(np.isfinite(c)) or not (np.max(np.abs(c - c_ref)) <= ctol * max(1.0, float(np.max(np.abs(lg))))):
             chk.fail("diff_log_demean_filter is not the de-meaned first difference of the log (same length)", case)
-        if not (abs(float(np.mean(c))) <= 1e-12 * max(1.0, float(np.max(np.abs(c))))):
+        if not (abs(float(np.mean(c))) <= ctol * max(1.0, float(np.max(np.abs(c))))):
             chk.fail(f"diff_log_demean_filter output has mean {float(np.mean(c))!r}, not zero", case)
     # moment summary: finite, and equal to the reference moments
     for _ in range(60 if chk.tier == "quick" else 800):
